@@ -227,6 +227,8 @@ class Edge(object):
 
 class Fn(object):
     def __init__(self, prog, d, unit):
+        import copy
+        self.raw = copy.deepcopy(d)       # pristine facts (the constructor normalises d in place)
         self.prog, self.d, self.unit = prog, d, unit
         self.name = d['name']
         self.key = self.name          # may be rewritten to name@unit on collision
@@ -284,10 +286,15 @@ class Fn(object):
             blk = self.blocks[bid]
             cond = (blk.get('term') or {}).get('cond')
             es = self.out.get(bid, [])
+            neg = False
+            while isinstance(cond, dict) and cond.get('k') == 'un' and cond.get('op') == '!' and isinstance(cond.get('e'), dict) \
+                    and cond['e'].get('k') in ('bin', 'un') and (cond['e'].get('op') in ('&&', '||', '!')):
+                cond = cond['e']
+                neg = not neg
             if not (isinstance(cond, dict) and cond.get('k') == 'bin' and cond.get('op') in ('&&', '||')):
                 continue
-            te = [e for e in es if e.label == 'true']
-            fe = [e for e in es if e.label == 'false']
+            te = [e for e in es if e.label == ('false' if neg else 'true')]
+            fe = [e for e in es if e.label == ('true' if neg else 'false')]
             if len(te) > 1 or len(fe) > 1 or len(te) + len(fe) != len(es) or not es:
                 continue
             a, b = cond['l'], cond['r']
@@ -526,6 +533,83 @@ class Fn(object):
                     lines.append(s.line)
         return lines
 
+    def _forward_with_retconsts(self, init, on_event, on_edge, limit, stop):
+        """Folded helpers return through synthetic `__ret@...` variables.  Track what was last stored
+        into them (a constant, or the returned expression) next to the caller's abstract state, so that
+        `if (helper(...))` keeps the path sensitivity the original inline code had: an edge that
+        contradicts the constant just returned is infeasible, and an edge on a returned expression is
+        presented to the analysis as edges on that expression's conjuncts."""
+        exprs = {}
+
+        def is_ret(e):
+            return isinstance(e, dict) and e.get('k') == 'var' and e.get('name', '').startswith('__ret@')
+
+        def derive(e, truth, out):
+            if isinstance(e, dict) and e.get('k') == 'un' and e.get('op') == '!':
+                derive(e['e'], not truth, out)
+            elif isinstance(e, dict) and e.get('k') == 'bin' and e.get('op') == '&&':
+                if truth:
+                    derive(e['l'], True, out)
+                    derive(e['r'], True, out)
+            elif isinstance(e, dict) and e.get('k') == 'bin' and e.get('op') == '||':
+                if not truth:
+                    derive(e['l'], False, out)
+                    derive(e['r'], False, out)
+            elif isinstance(e, dict):
+                out.append(Edge(-1, -1, 'true' if truth else 'false', e))
+
+        def ev2(st, s):
+            user, rc = st
+            ev = s.ev
+            if ev['k'] == 'store' and is_ret(ev.get('lhs')):
+                d = dict(rc)
+                c = const_of(ev.get('rhs')) if ev.get('op') == '=' else None
+                if c is not None:
+                    d[ev['lhs']['name']] = ('c', c)
+                elif ev.get('op') == '=' and isinstance(ev.get('rhs'), dict):
+                    exprs[s.key] = ev['rhs']
+                    d[ev['lhs']['name']] = ('e', s.key)
+                else:
+                    d.pop(ev['lhs']['name'], None)
+                rc = tuple(sorted(d.items()))
+            r = on_event(user, s) if on_event else user
+            if r is None:
+                return None
+            if isinstance(r, list):
+                return [(x, rc) for x in r]
+            return (r, rc)
+
+        def ed2(st, e):
+            user, rc = st
+            r = e.rel()
+            extra = []
+            if r is not None and is_ret(r[0]) and const_of(r[2]) is not None:
+                d = dict(rc)
+                got = d.get(r[0]['name'])
+                c, op = const_of(r[2]), r[1]
+                if got and got[0] == 'c':
+                    v = got[1]
+                    holds = {'==': v == c, '!=': v != c, '<': v < c, '<=': v <= c, '>': v > c, '>=': v >= c}[op]
+                    if not holds:
+                        return None
+                elif got and got[0] == 'e' and c == 0 and op in ('==', '!='):
+                    derive(exprs[got[1]], op == '!=', extra)
+            u = on_edge(user, e) if on_edge else user
+            if u is None:
+                return None
+            for x in extra:
+                u = on_edge(u, x) if on_edge else u
+                if u is None:
+                    return None
+            return (u, rc)
+        self._in_wrapped = True
+        try:
+            before, at_exit, sin, bout = self.forward((init, ()), ev2, ed2, limit, stop)
+        finally:
+            self._in_wrapped = False
+        strip = lambda m: collections.defaultdict(set, {k: {u for (u, rc) in v} for k, v in m.items()})
+        return strip(before), {u for (u, rc) in at_exit}, strip(sin), strip(bout)
+
     # ---- generic finite forward dataflow ------------------------------------------
     def forward(self, init, on_event=None, on_edge=None, limit=20000, stop=None):
         """Propagate sets of hashable abstract states from the entry.
@@ -535,6 +619,8 @@ class Fn(object):
         Returns (before, at_exit): before[(bid, idx)] = set of states just before that
         event; at_exit = set of states reaching the exit block.  Finite domains only.
         """
+        if getattr(self, 'inlined', 0) and not getattr(self, '_in_wrapped', False):
+            return self._forward_with_retconsts(init, on_event, on_edge, limit, stop)
         states_in = collections.defaultdict(set)
         states_in[self.entry].add(init)
         before = collections.defaultdict(set)
@@ -623,6 +709,8 @@ class Program(object):
                 self.fns[fn.key] = fn
         self._slots = None
         self._wparams = None
+        from . import inline
+        self.folded_helpers = inline.fold_new_helpers(self)
         self.n_blocks = sum(len(f.blocks) for f in self.fns.values())
 
     # ---- names and locations -------------------------------------------------------
